@@ -868,8 +868,13 @@ class Polyhedron(Shape3D):
         # Handle zeros q vector cases up front to allow looping over faces without
         # double checking internally.
         q_sqs = np.sum(q * q, axis=-1)
-        zero_q = np.isclose(q_sqs, 0)
-        form_factor[zero_q] = self.volume
+        # "Zero" relative to the size of the shape (|q| L < 1e-6); to that order the
+        # amplitude is the volume times the phase of the centroid.
+        extent = np.max(np.ptp(self.vertices, axis=0))
+        zero_q = q_sqs * extent**2 < 1e-12
+        form_factor[zero_q] = self.volume * np.exp(
+            -1j * np.dot(q[zero_q], self.centroid)
+        )
 
         for face, eqn in zip(self.faces, self._equations):
             # Calculate each face's form factor as a polygon. This implementation aims
